@@ -62,12 +62,23 @@ HdrSets ==
     << Hdr("Sec-Websocket-Protocol", "v2.caller, v1.caller") >>,
     << Hdr("X-Custom", "some value") >>,
     << Hdr("Origin", "https://o.example.test:8443"), Hdr("Cookie", "k=v"), Hdr("X-Custom", "1"), Hdr("Host", "h.example.test:81") >>,
-    << Hdr("Authorization", "Bearer abc"), Hdr("User-Agent", "verif/1.0") >> }
+    << Hdr("Authorization", "Bearer abc"), Hdr("User-Agent", "verif/1.0") >>,
+    \* fields with SEVERAL values (the driver appends the values of one key in this order): every value must reach
+    \* the wire, in the caller's order; also next to other fields, and under a non-canonical spelling of the key
+    << Hdr("Cookie", "a=1"), Hdr("Cookie", "b=2") >>,
+    << Hdr("X-Forwarded-For", "192.0.2.1"), Hdr("X-Forwarded-For", "192.0.2.2"), Hdr("X-Forwarded-For", "192.0.2.3") >>,
+    << Hdr("X-A", "1"), Hdr("Cookie", "k=v"), Hdr("X-A", "2"), Hdr("Origin", "http://origin.example.test"), Hdr("X-A", "3") >>,
+    << Hdr("x-lower-case", "one"), Hdr("x-lower-case", "two") >>,
+    << Hdr("X-MiXed-caSe", "first"), Hdr("X-MiXed-caSe", "second"), Hdr("X-MiXed-caSe", "third") >>,
+    << Hdr("Accept-Language", "de"), Hdr("Accept-Language", "en;q=0.5") >>,
+    << Hdr("Host", "first.example.test"), Hdr("Host", "second.example.test") >>,
+    << Hdr("Sec-Websocket-Protocol", "v2.caller"), Hdr("Sec-Websocket-Protocol", "v1.caller") >> }
 
-SetCfgs == { [BaseCfg EXCEPT !.subs = s, !.comp = cm, !.jar = j, !.tmo = t] :
+(* trace: the dial context carries an httptrace.ClientTrace with every hook set (must not change any outcome) *)
+SetCfgs == { [BaseCfg EXCEPT !.subs = s, !.comp = cm, !.jar = j, !.tmo = t, !.trace = (cm = j)] :
                s \in { << >>, << "chat", "superchat" >> }, cm \in BOOLEAN, j \in BOOLEAN, t \in {"none", "ht"} }
 
-CoreCfgs == { BaseCfg, [BaseCfg EXCEPT !.subs = << "chat", "superchat" >>, !.comp = TRUE, !.tmo = "ht"] }
+CoreCfgs == { BaseCfg, [BaseCfg EXCEPT !.subs = << "chat", "superchat" >>, !.comp = TRUE, !.tmo = "ht", !.trace = TRUE] }
 
 D1(u, h, r) == Dial(u, h, r, OkCReply, "valid", NoFault, FALSE)
 
@@ -89,7 +100,7 @@ NegOf(k, b, cl, sg) ==
                 [] k = "500close" -> StdReply(500, << >>, << << "close" >> >>, "absent", b, cl, "none")
                 [] OTHER -> StdReply(101, << << "websocket" >> >>, << << "Upgrade" >> >>, "other", b, cl, "none")
   IN [base EXCEPT !.seg = SegOf(sg)]
-BodyCfgs == { [BaseCfg EXCEPT !.rbuf = b] : b \in BodyRBufs }
+BodyCfgs == { [BaseCfg EXCEPT !.rbuf = b, !.trace = (b = 256 \/ b = 8192)] : b \in BodyRBufs }
 (* ... and bodies cut short by the server: Content-Length declares more (a few bytes, 2^28, 2^63-1) than the blen   *)
 (* bytes that arrive before the connection ends; the caller still gets the first min(1024, blen) bytes.           *)
 BodyDials ==
@@ -108,7 +119,7 @@ WssURL == [PlainURL EXCEPT !.scheme = "wss"]
 HistReplies == { GoodReply, [GoodReply EXCEPT !.acc = "stale"], [GoodReply EXCEPT !.acc = "swap"],
                  StdReply(403, << >>, << >>, "absent", 10, TRUE, "none") }
 
-MCCfgs == (IF "hdr" \in Parts THEN SetCfgs ELSE CoreCfgs)
+MCCfgs == CoreCfgs \cup (IF "hdr" \in Parts THEN SetCfgs ELSE {})
           \cup (IF "body" \in Parts THEN BodyCfgs ELSE {})
           \cup (IF "urlp" \in Parts THEN ProxyCfgs ELSE {})
 
